@@ -144,7 +144,8 @@ CHECKS = {'C01': {'level': 'exploration',
                  'numeric thresholds sit on, or one beside, a value that a live row holds in the filtered column; one layout in three stores '
                  'full-range, edge-biased integers (all 64 bits in use: a filter that goes through float64 or compares in another width decides such '
                  'rows wrongly) - Sum and Avg are then not judged for the integer columns (a wrapped sum cannot be told from a fitting one), the '
-                 'filters, Count, Range, Min and Max are',
+                 'filters, Count, Range, Min and Max are | action dropIndex (round 8): dropped index names come back on another column or with '
+                 'another rule; one drop in three goes through DropColumn(indexName)',
          'assumptions': ['aggregate-safe values: sums are exact in any order; Sum/Avg are not judged when the true sum does not fit the column type '
                          '(counted)',
                          'a fresh Union(missing, ...) is not generated (the text does not define it); WithValue is not applied to index names; '
